@@ -32,6 +32,27 @@ def isort {α : Type} (le : α → α → Bool) : List α → List α
   | [] => []
   | a :: l => ins le a (isort le l)
 
+/-! `sort_by_text_position` finds a placeholder by searching its marker in the rendered statement.  The model below
+uses the print-template position instead; this is the same as long as a marker is only found where its own placeholder
+is rendered.  The markers are probed (`Gen.Schema.markers`) and `markersOK` is kernel-checked on them. -/
+
+def isPrefixL : List Nat → List Nat → Bool
+  | [], _ => true
+  | _ :: _, [] => false
+  | a :: as, b :: bs => a == b && isPrefixL as bs
+
+/-- `a` occurs somewhere in `b` -/
+def isInfixL (a : List Nat) : List Nat → Bool
+  | [] => a.isEmpty
+  | b :: bs => isPrefixL a (b :: bs) || isInfixL a bs
+
+/-- enough markers were probed, none is empty and none occurs inside another one (in particular none is a prefix
+of another: `:__param_1` would be found inside `:__param_10`) -/
+def markersOK (ms : List (List Nat)) : Bool :=
+  decide (26 ≤ ms.length) && ms.all (fun m => !m.isEmpty)
+  && (List.range ms.length).all (fun i => (List.range ms.length).all (fun j =>
+        i == j || !isInfixL (ms.getD i []) (ms.getD j [])))
+
 /-- position in the rendered statement (`text.find(marker)`); `order.length` when not rendered -/
 def rank (order : List Nat) (t : Nat) : Nat := order.findIdx (· == t)
 
